@@ -2177,3 +2177,12 @@ package ucfg
 //@ props C07
 //@ sweep
 //@ norte extern@(Value).Elem
+
+// normalizeArray: one configuration list entry per element of the Go array or slice
+//@ func normalizeArray :: opts, tagOpts, ctx, v -> r, err
+//@ props C07 C06
+//@ sweep
+//@ requires opts != nil && (rvKind(v) == 17 || rvKind(v) == 23)
+//@ modifies *
+//@ ensures [length] err == nil ==> typeof(r) == cfgSub && r.(cfgSub).c != nil && len(r.(cfgSub).c.fields.a) == rvLen(v)
+//@ loop 1 invariant 0 <= i && i <= l && len(out) == i && l == rvLen(v) && cfg != nil
